@@ -831,6 +831,9 @@ class VLE(Equilibrium, phases='lg'):
             (H_hat,), checkiter=False, checkbounds=False,
             maxiter=self.maxiter,
         )
+        if P == P_dew or P == P_bubble:
+            # Solver accepted a bound without evaluating it; make flows consistent with it
+            self._H_hat_err_at_P(P, H_hat)
         self._P = self._thermal_condition.P = P   
         self._thermal_condition.T = T
     
@@ -880,6 +883,9 @@ class VLE(Equilibrium, phases='lg'):
             (S_hat,), checkiter=False, checkbounds=False,
             maxiter=self.maxiter,
         )
+        if P == P_dew or P == P_bubble:
+            # Solver accepted a bound without evaluating it; make flows consistent with it
+            self._S_hat_err_at_P(P, S_hat)
         self._P = self._thermal_condition.P = P   
         self._thermal_condition.T = T
     
